@@ -9,14 +9,16 @@ proof         : coq/prop/P_C27.v over model/M_StickyLife.v (proof/L_StickyLife.v
 regenerated   : translate/t_c27_sticky.py reads CallContext.open_session/close_session, _SessionRegistry.open,
                 _StickySink.open/.close, _StickyMiddleware.process_request/_open_session/process_response and
                 _SessionTrackingClient._capture/_merge_headers with ast and emits gen/G_StickyLife.v (guard order,
-                sink assignments, header emission rules, capture order); tie/T_StickyLife.v proves gen_cfg = cfg_model
-                by reflexivity and restates the theorems over gen_cfg.
+                sink assignments, header emission rules, capture order); the theorems hold for every configuration with
+                the modelled guard list that satisfies good_cfg (4 equations over all sink shapes); tie/T_StickyLife.v
+                proves both for gen_cfg by computation and restates the theorems over gen_cfg.
 correspondence: the REAL Falcon app (make_sync_client(enable_sticky=True)) + REAL session views
                 (http_connect(...).with_session_token()) + drain_handle; histories of <= 6 events, <= 3 actions per
                 request over {open, close, resume, noop}, 2 views, calls outside a view, hand-made header
                 combinations (accept spellings, stale / garbage tokens) and drain toggles.  After EVERY event the
                 registry contents, both view tokens, the error class, the sessions seen by `resume` actions and
-                the two response headers are compared with M_StickyLife.run_case.
+                the two response headers are compared with the model interpreter M_StickyLife.run_obs instantiated with
+                the regenerated programs (gen_cfg).
 oracle        : independent of the model, on the real observations: (a) a session appears only in a request that
                 carried the opt-in and only while not draining, draining refusals are ServerDrainingError /
                 error_kind server_draining; (b) a request presenting the token of a live session is dispatched on
@@ -298,17 +300,28 @@ def _coq_obs(o: tuple[Any, ...]) -> str:
 def run(ctx: Any) -> None:
     translate(ctx)
     ctx.prove(
-        ["prop/P_C27.vo", "tie/T_StickyLife.vo", "refuted/R_C27.vo"],
+        ["prop/P_C27.vo", "refuted/R_C27.vo"],
         {
             "P_C27": [
                 "C27_open_only_with_accept_and_not_draining", "C27_draining_open_yields_server_draining",
                 "C27_server_draining_only_while_draining", "C27_existing_serve_during_drain", "C27_drain_does_not_change_service",
-                "C27_view_equals_live", "C27_no_live_session_orphaned",
+                "C27_view_equals_live", "C27_no_live_session_orphaned", "C27_model_is_good",
             ],
-            "T_StickyLife": ["sticky_cfg_tie", "C27_source_view_equals_live", "C27_source_open_only_with_accept_and_not_draining"],
-            "R_C27": ["C27_close_then_open_orphans_refuted"],
+            "R_C27": ["C27_close_then_open_orphans_refuted", "C27_noop_close_then_open_orphans_refuted", "C27_old_cfg_not_good"],
         },
     )
+    # the tie separately: when the source no longer has the proved shape only these obligations break
+    tie_ok = ctx.prove(
+        ["tie/T_StickyLife.vo"],
+        {"T_StickyLife": ["sticky_guards_tie", "sticky_cfg_tie", "C27_source_view_equals_live", "C27_source_no_live_session_orphaned",
+                          "C27_source_open_only_with_accept_and_not_draining", "C27_source_draining_open_yields_server_draining"]},
+    )
+    have_gen = (ctx.bdir / "gen" / "G_StickyLife.vo").exists() and "Definition gen_cfg" in (ctx.bdir / "gen" / "G_StickyLife.v").read_text()
+    if not tie_ok and have_gen:
+        # G_StickyLife.vo may be stale when the build of the tie stopped early: rebuild it alone
+        from vlib.core import coq_make
+
+        have_gen, _ = coq_make(ctx.bdir, ["gen/G_StickyLife.vo"])
 
     from harness.c27_service import World
 
@@ -354,15 +367,22 @@ def run(ctx: Any) -> None:
     for h in (histories[0], [("view", 0, "o"), ("view", 0, "co"), ("view", 0, "r")], histories[-1]):
         ctx.sample({"history": [list(e) for e in h]})
 
+    # The model interpreter is run with the programs regenerated from THIS source tree (gen_cfg); tie/T_StickyLife.v is
+    # what says that they are the proved ones.  Without a usable translation fall back to the proved programs.
     header = "From Coq Require Import List Arith Bool.\nFrom VGI Require Import M_StickyLife.\nImport ListNotations.\nOpen Scope nat_scope."
-    ok, bad, clog = ctx.coq_mismatches(header, "run_case", "obss_eqb", cases, "nat * list event", "list obs", shard=300)
+    runner = "run_case"
+    if have_gen:
+        header += "\nFrom VGI Require Import G_StickyLife.\nDefinition run_gen (x : nat * list event) : list obs := run_obs gen_cfg (fst x) world0 (snd x)."
+        runner = "run_gen"
+    ctx.notes.append(f"correspondence ran the model interpreter with {'the regenerated programs (gen_cfg)' if have_gen else 'cfg_model (no usable translation)'}")
+    ok, bad, clog = ctx.coq_mismatches(header, runner, "obss_eqb", cases, "nat * list event", "list obs", shard=300)
     ctx.count("model_cases", len(cases))
-    ctx.obligation("correspondence:M_StickyLife.run_case", "correspondence", ok and not bad, clog if not ok else f"{len(bad)} of {len(cases)} histories disagree")
+    ctx.obligation("correspondence:M_StickyLife.run_obs", "correspondence", ok and not bad, clog if not ok else f"{len(bad)} of {len(cases)} histories disagree")
     for i in bad[:3]:
-        model = ctx.coq_show(header, f"run_case {cases[i][0]}")
+        model = ctx.coq_show(header, f"{runner} {cases[i][0]}")
         ctx.violation(
             "model-impl-disagree",
-            "implementation and model (of the repaired code) behave differently on a history",
+            "implementation and model interpreter behave differently on a history",
             {"history": [list(e) for e in shown[i]], "impl": cases[i][1], "model": model[-1500:]},
         )
     ctx.assumptions += [
